@@ -11,6 +11,8 @@ mod c08;
 #[cfg(actix_net_verif)]
 mod c06;
 #[cfg(actix_net_verif)]
+mod c07;
+#[cfg(actix_net_verif)]
 mod engine;
 #[cfg(actix_net_verif)]
 mod monitor;
@@ -428,6 +430,43 @@ fn main() {
                         c06::Outcome::Held => Verdict::Held,
                         c06::Outcome::Violated(f) => Verdict::Violated(f),
                         c06::Outcome::Inconclusive(w) => Verdict::Inconclusive(w),
+                    }
+                }
+            },
+        ),
+        "C07" => scenario_loop(
+            &args,
+            &mut rep,
+            320,
+            8000,
+            0,
+            |seed| {
+                let s = c07::Scn::from_seed(seed);
+                (s.shape(), s.to_json())
+            },
+            {
+                let mut seen = c07::Seen::default();
+                move |seed, fin: Option<&mut Report>| -> Verdict {
+                    if let Some(rep) = fin {
+                        rep.add("obs_calls_checked", seen.calls_checked);
+                        rep.add("obs_full_ready_rounds", seen.ready_rounds_seen);
+                        rep.add("obs_pending_results", seen.pending_results);
+                        rep.add("obs_readiness_errors", seen.readiness_errors);
+                        rep.add("obs_restarts_checked", seen.restarts_checked);
+                        rep.add("obs_restart_of_fresh_instance", seen.restart_of_fresh_instance);
+                        rep.add("obs_calls_after_pending_phase", seen.calls_delayed_by_pending);
+                        rep.add("obs_fifo_checks", seen.fifo_checks);
+                        rep.add("obs_connections", seen.connections);
+                        rep.add("obs_multi_service_scenarios", seen.multi_service_workers);
+                        rep.add("obs_errors_while_other_pending", seen.errors_while_other_pending);
+                        rep.rule = "readiness scripts on a real server: 1..3 services (listeners) per worker x 1..2 workers x {Actix, Tokio}; 2..10 steps over {make instance (service, worker) Pending, make it Ready, readiness Err (re-created instance scripted Ready / Pending / failing again), connect a client to service l}, each step followed by an accept-thread ping; epilogue: all scripts cleared, every client must be served. \
+                                    Oracle on the per-thread order of the scripted services' own events: every call is preceded (since the previous call / non-ready result) by Ready from every current instance of that worker; after Err from an instance the next instantiation on that thread is of the same service, happens before any call, and no service is re-created without an error; calls go to current instances; with one worker the calls of a service follow dispatch order; no client is lost or left unserved once everything is ready. Distinct = distinct (workers, services, runtime, op list).".into();
+                        return Verdict::Held;
+                    }
+                    match c07::run_scenario(&c07::Scn::from_seed(seed), &mut seen) {
+                        c07::Outcome::Held => Verdict::Held,
+                        c07::Outcome::Violated(f) => Verdict::Violated(f),
+                        c07::Outcome::Inconclusive(w) => Verdict::Inconclusive(w),
                     }
                 }
             },
